@@ -1068,6 +1068,9 @@ func UtxoValidateInsufficientCollateral(
 		if err != nil {
 			return err
 		}
+		if utxo.Output == nil {
+			continue
+		}
 		if amount := utxo.Output.Amount(); amount != nil {
 			totalCollateral.Add(totalCollateral, amount)
 		}
